@@ -63,6 +63,9 @@ def c04_library_order(viols, profile, log):
     return kept
 
 
+TWO_MC = [{"module": "MC_TwoLevel.tla", "cfg": "MC_TwoLevel_q.cfg", "only": "quick"},
+          {"module": "MC_TwoLevel.tla", "cfg": "MC_TwoLevel_t.cfg", "tier": "thorough", "workers": 16}]
+
 PROPS = {
     "C01": P(["logic", "consts"], mc=KMC(["logic"]), machine_ops=["logic"], rule="every syntactic form of NOT/AND/OR/XOR on structured and random operand pairs for n = 0..14; "
              "all pairs x forms for n <= 2 (n = 3 thorough); distinct = distinct (form, operands) content"),
@@ -104,7 +107,9 @@ PROPS = {
     "C11": P(CTORS, mc=KMC(["ctors"]), machine_ops=["zero", "one", "parity", "majority", "nth_var", "threshold", "equals"], rule="all named constructors, n = 0..14, all i < n, k in 0..n+2 and 63, 64, 65, 2^32, usize::MAX, "
              "all count masks for n <= 5 and structured/random 64-bit masks above"),
     "C18": P(["optimize"],
-             "optimize_sop_mip / optimize_sopes_mip / optimize_esop_mip on all lists of 1..2 functions for n <= 2 and all single "
+             mc=[{"module": "MC_Optim.tla", "cfg": "MC_Optim_n1.cfg"}, {"module": "MC_Optim.tla", "cfg": "MC_Optim_n2.cfg"},
+                 {"module": "MC_Optim.tla", "cfg": "MC_Optim_n2x2.cfg", "tier": "thorough", "workers": 16}],
+             rule="optimize_sop_mip / optimize_sopes_mip / optimize_esop_mip on all lists of 1..2 functions for n <= 2 and all single "
              "functions of n = 3 (sampled in the quick tier), gate-cost triples from {1,2,3}^3; soundness and cost compared with the "
              "specification's exact optimum (dynamic programming over candidate terms)",
              exe="voptim", profiles_thorough=["checked"], chunk_weight=40,
@@ -114,19 +119,19 @@ PROPS = {
              "every draw well-formed; per thread every assignment sees both values and no two assignments have equal or "
              "complementary signatures; draws pairwise distinct for n >= 8 also across threads (false-alarm probability < 2^-200)",
              chunk_weight=1),
-    "C12": P(["t_mk", "t_val", "t_bin", "t_rel", "t_implut", "t_info", "t_all"],
-             "all cubes and pairs over n <= 3 (5 thorough) with every assignment, implies_lut against all functions, "
+    "C12": P(mc=TWO_MC, strict_ops=["t_mk", "t_val", "t_bin", "t_rel", "t_implut", "t_info", "t_all"],
+             rule="all cubes and pairs over n <= 3 (5 thorough) with every assignment, implies_lut against all functions, "
              "constructors up to 32 variables, random 32-variable cubes with random 32-bit assignments"),
-    "C13": P(["t_mk", "t_val", "t_bin", "t_not", "t_rel", "t_implut", "t_info", "t_all", "t_tolut"],
-             "all exclusive cubes and pairs over n <= 4 (5 thorough), random 32-variable ones; all Soes of <= 2 (3) terms over n <= 3, random to n = 8"),
-    "C14": P(["t_mk", "t_val", "t_bin", "t_not", "t_info", "t_tolut"],
-             "all cube lists of <= 2 (3) cubes over n <= 3, Lut->Sop->Lut for every function of n <= 3 (4), nested expressions "
+    "C13": P(mc=TWO_MC, strict_ops=["t_mk", "t_val", "t_bin", "t_not", "t_rel", "t_implut", "t_info", "t_all", "t_tolut"],
+             rule="all exclusive cubes and pairs over n <= 4 (5 thorough), random 32-variable ones; all Soes of <= 2 (3) terms over n <= 3, random to n = 8"),
+    "C14": P(mc=TWO_MC, strict_ops=["t_mk", "t_val", "t_bin", "t_not", "t_info", "t_tolut"],
+             rule="all cube lists of <= 2 (3) cubes over n <= 3, Lut->Sop->Lut for every function of n <= 3 (4), nested expressions "
              "(depth <= 4) over random redundant/overlapping/duplicated cube lists up to n = 10", chunk_weight=6000),
-    "C15": P(["t_mk", "t_val", "t_bin", "t_not", "t_info", "t_tolut"],
-             "Lut->Esop for every function of n <= 3 (4 thorough) and structured/random functions to n = 10; operators on random cube lists",
+    "C15": P(mc=TWO_MC, strict_ops=["t_mk", "t_val", "t_bin", "t_not", "t_info", "t_tolut"],
+             rule="Lut->Esop for every function of n <= 3 (4 thorough) and structured/random functions to n = 10; operators on random cube lists",
              chunk_weight=6000),
-    "C16": P(["t_text", "t_alltext"],
-             "printed text of all cubes / exclusive cubes over n <= 4, all forms of <= 2 (3) terms over n <= 3, random forms with "
+    "C16": P(mc=TWO_MC, strict_ops=["t_text", "t_alltext"],
+             rule="printed text of all cubes / exclusive cubes over n <= 4, all forms of <= 2 (3) terms over n <= 3, random forms with "
              "two-digit variable indices; parsed and evaluated by the specification on every assignment"),
     "C17": P([], machine_ops=["nth_var", "flip", "swap", "swapadj", "fromcof", "setbit", "decomp"], rule="out-of-range indices/assignments, size-mismatched operands, wrong slice lengths on every index-taking "
              "method, executed by a debug-assertions+overflow-checks build and by a build without either; valid workload "
